@@ -14,7 +14,7 @@ for f in ("patch.diff", "demo.py", "notes.md"):
 head = subprocess.run(["git", "-C", "/repo", "log", "--format=%h", "-1"], capture_output=True, text=True).stdout.strip()
 meta = {
     "breaks_property": prop,
-    "origin": "round 2: fresh sub-agent given only the property record and its own scratch worktree of /repo under /tmp (nothing from /verif), asked for two changes in different mechanisms",
+    "origin": __import__("os").environ.get("ORIGIN", "round 2") + ": fresh sub-agent given only the property record and its own scratch worktree of /repo under /tmp (nothing from /verif), asked for two changes in different mechanisms",
     "needs_to_manifest": needs,
     "confirmed": {
         "how": "tools/try_seeded.sh <patch> <demo> '<checks>': scratch worktree /var/tmp/seedwt-* of /repo, demo on the unchanged tree (exit 0), git apply, demo on the changed tree (exit 1), unedited test-suite (2576 passed, 24 skipped), then ./check <ID> --tier quick --no-evidence with VERIF_REPO=<worktree>; worktree removed afterwards",
